@@ -269,7 +269,7 @@ def stepNS (st : NS) (op impl : String) : NS × StepOut :=
   | ["open", srv, pid] =>
     match parseBool? srv, pid.toNat? with
     | some srv, some pid =>
-      ({ st with sessions := st.sessions ++ [⟨pid, srv, none, none, false⟩] }, { model := "ok" })
+      (st.opened pid srv, { model := "ok" })
     | _, _ => (st, { model := "bad-op" })
   | ["register", pid, peer, nonce] =>
     match pid.toNat?, nonce.toNat? with
@@ -313,10 +313,10 @@ def stepNS (st : NS) (op impl : String) : NS × StepOut :=
     | none => (st, { model := "bad-op" })
   | ["close", pid] =>
     match pid.toNat? with
-    | some pid => ({ st with sessions := st.sessions.filter (·.id != pid) }, { model := "ok" })
+    | some pid => (st.close pid, { model := "ok" })
     | none => (st, { model := "bad-op" })
   | ["visible"] =>
-    (st, { model := showNats (sortNats ((st.sessions.filter (·.auth)).map (·.id))) })
+    (st, { model := showNats (sortNats st.listed) })
   | _ => (st, { model := "bad-op" })
 
 def step (ds : DS) (op impl : String) : DS × StepOut :=
